@@ -1317,6 +1317,22 @@ func c36Gen(g *Gen) {
 		}
 		g.Case(lines...)
 	}
+	// table capacity: one producer stream of more batches than the allocation table has entries
+	// (4094), every pointer held until the end; past the table's capacity results must fall back to
+	// the pipe, and every held slot must still hold its batch when it is finally read and released
+	for i, nc := 0, g.N(1, 4); i < nc; i++ {
+		count := 4094 + r.Range(2, 12)
+		ts := make([]string, count+1)
+		for t := range ts {
+			ts[t] = "t:i"
+		}
+		lines := []string{"seg 0 3000000",
+			fmt.Sprintf("unary g0 blob 300 %d 0 i 1", r.Intn(1000)),
+			fmt.Sprintf("stream g0 %s %d %d %d 0 i 1 %s", Pick(r, []string{"gen", "genb"}), count, Pick(r, []int{260, 300}), r.Intn(1000), strings.Join(ts, ";")),
+			"release",
+			fmt.Sprintf("unary - blob 300 %d 0 s0 0", r.Intn(1000))}
+		g.Case(lines...)
+	}
 	// several producers in ONE session whose output schemas are pairwise almost equal (metadata
 	// only), and producers of deeply nested dictionary columns — large batches, through the segment
 	for i, nm := 0, g.N(60, 1200); i < nm; i++ {
